@@ -361,7 +361,8 @@ def _traits(case):
         if l.startswith("#LNOBJ "):
             lnobj = l.split(" ", 1)[1]
     traits = set()
-    # (a) an LN tail whose last parsed head is not the preceding object of the lane in time
+    # (a) [repaired in f4fcb45, no longer a known class; kept as a descriptive trait only] an LN tail whose last parsed
+    #     head is not the preceding object of the lane in time
     lanes = {}
     for o in objs:
         col = cfg.get(o[2])
@@ -385,7 +386,7 @@ def _traits(case):
                     stack.append(p)
             last_parsed = stack[-1] if stack else None
             if last_parsed is not prev_time:
-                traits.add("ln-tail-pairs-last-parsed")
+                traits.add("ln-lines-out-of-time-order")
     # (b) a tempo object whose beat distance to the previous tempo object is not on the 1/96 grid
     t = sorted({(o[0], o[1]) for o in objs if o[2] in ("03", "08")})
     prev = (0, Fr(0))
@@ -416,8 +417,6 @@ def classify(case, out, kind):
         return None
     tr = _traits(case)
     v = out.get("v")
-    if "ln-tail-pairs-last-parsed" in tr:
-        return "ln-tail-pairs-last-parsed"
     if "tempo-offgrid-resnap" in tr and v is not None:
         return "tempo-offgrid-resnap"
     return None
